@@ -37,9 +37,16 @@ def run(chk):
         d = rng.choice([2, 3, 3, 4, 5])
         pool = rng.choice([[0, 1], [-1, 0, 1], [0, 1, 2, 3], [-2, -1, 0, 1, 2, 4], [0.5, 1.0, 1.5], [0, 0.125, 0.25, 0.375, 1]])
         o = [rng.choice(pool) for _ in range(d)]
+        scale_ = 8
+        if it < 4:
+            # every run: spectra with values that nearly coincide (relative 4e-6 .. 1e-5) without coinciding: only equal sums
+            # and differences may share a class, whatever their size
+            d = 3
+            o = [[1.0, 0.999994, -0.3], [50.0, 50.0004, 49.0], [0.999994, -0.3, 1.0], [2000.0, 2000.01, 0.0]][it]
+            scale_ = 10 ** 7
         bath = oqupy.Bath(np.diag(np.array(o, dtype=float)), _corr)
-        comm = [int(round(8 * (o[i] - o[j]))) for i in range(d) for j in range(d)]
-        acomm = [int(round(8 * (o[i] + o[j]))) for i in range(d) for j in range(d)]
+        comm = [int(round(scale_ * (o[i] - o[j]))) for i in range(d) for j in range(d)]
+        acomm = [int(round(scale_ * (o[i] + o[j]))) for i in range(d) for j in range(d)]
         north, west = bath.north_degeneracy_map, bath.west_degeneracy_map
         info = {"kind": "maps", "o": o}
         for name, m, keys in (("north", north, list(zip(comm, acomm))), ("west", west, [(c, 0) for c in comm])):
